@@ -71,6 +71,7 @@ def run_gosmt(run, tier, scratch, idx):
            "-timeout-ms", str(run.get("timeout_ms", 20000)),
            "-unwind", str(run.get("unwind", 64)),
            "-bounds", run.get("bounds", ""),
+           "-conc-limit", str(run.get("conc_limit", 64)),
            "-samples", "3", "-vio-grace", str(run.get("vio_grace", 40)),
            "-out", out]
     cmd += ["-max-seconds", str(run.get("max_seconds", 900 if tier == "quick" else 5400))]
